@@ -292,6 +292,11 @@ fn judge(run: &Run, env: &Env, c: &Case) -> CaseResult {
     let (alabel, mime, _) = ASSETS[ai];
     let src = &env.assets[ai];
     let hops = 1 + (c.hops % 3);
+    if std::env::var("VERIF_DUMP").is_ok() {
+        let mut t = gd.json.to_string();
+        t.truncate(6000);
+        eprintln!("definition: {t}\nintent: {:?}\nstream ingredients: {:?}\nresources: {:?}", gd.intent, gd.stream_ingredients.iter().map(|p| (&p.source, p.json.to_string())).collect::<Vec<_>>(), gd.resources.iter().map(|r| (&r.0, r.1.len())).collect::<Vec<_>>());
+    }
     run.count(&format!("asset_{alabel}"));
     run.count(&format!("hops_{hops}"));
     run.count(&format!("route_{}", ["with_archive", "reader_into_builder", "alternating"][(c.route % 3) as usize]));
@@ -329,6 +334,24 @@ fn judge(run: &Run, env: &Env, c: &Case) -> CaseResult {
         match vh::catch(|| b.to_archive(&mut ar)) {
             Err(p) => return Err(Fail::new(format!("C22:to-archive-panic:{}", vh::core::panic_site(&p)), format!("to_archive panicked: {p}"))),
             Ok(Err(e)) => {
+                if hop > 0 && matches!(e, c2pa::Error::AssertionRedactionNotFound) && !gd.expect.redactions.is_empty() {
+                    return Err(Fail::new(
+                        "C22:redactions-break-restored-builder",
+                        format!("definition with redactions {:?}: after {hop} archive hop(s) the restored builder cannot be archived again: {e}", gd.expect.redactions),
+                    ));
+                }
+                if hop > 0 && matches!(e, c2pa::Error::ResourceNotFound(_)) && format!("{e}").contains("c2pa.databoxes/") && gd.expect.claim_version == 1 {
+                    return Err(Fail::new(
+                        "C22:v1-databox-resource-lost-after-restore",
+                        format!("claim v1 definition with resources: after {hop} archive hop(s) the restored builder cannot be archived again: {e}"),
+                    ));
+                }
+                if hop > 0 && matches!(e, c2pa::Error::ResourceNotFound(_)) && format!("{e}").contains("c2pa.assertions/c2pa.icon") {
+                    return Err(Fail::new(
+                        "C22:generator-icon-lost-after-restore",
+                        format!("definition with a claim generator icon resource: after {hop} archive hop(s) the restored builder cannot be archived again: {e}"),
+                    ));
+                }
                 return Err(Fail::new(
                     format!("C22:to-archive-failed:{}", err_variant(&e)),
                     format!("to_archive (hop {hop}) failed although the same builder signs fine: {e}"),
@@ -352,6 +375,24 @@ fn judge(run: &Run, env: &Env, c: &Case) -> CaseResult {
         Ok(r) => r,
         Err(f) if f.signature.starts_with("C22:") => return Err(f),
         Err(f) => {
+            if f.signature == "sign:AssertionRedactionNotFound" && !gd.expect.redactions.is_empty() {
+                return Err(Fail::new(
+                    "C22:redactions-break-restored-builder",
+                    format!("definition with redactions {:?}: the original builder signs, the builder restored after {hops} archive hop(s) fails to sign: {}", gd.expect.redactions, f.what),
+                ));
+            }
+            if f.signature == "sign:ResourceNotFound" && f.what.contains("c2pa.assertions/c2pa.icon") {
+                return Err(Fail::new(
+                    "C22:generator-icon-lost-after-restore",
+                    format!("definition with a claim generator icon resource: the original builder signs, the builder restored after {hops} archive hop(s) fails to sign: {}", f.what),
+                ));
+            }
+            if f.signature == "sign:ResourceNotFound" && f.what.contains("c2pa.databoxes") && gd.expect.claim_version == 1 {
+                return Err(Fail::new(
+                    "C22:v1-databox-resource-lost-after-restore",
+                    format!("claim v1 definition with ingredient resources: the original builder signs, the builder restored after {hops} archive hop(s) fails to sign: {}", f.what),
+                ));
+            }
             return Err(Fail::new(
                 format!("C22:restored-{}", f.signature.replace(':', "-failed:")),
                 format!("the original builder signs and reads fine, the restored one does not: {}", f.what),
@@ -360,19 +401,57 @@ fn judge(run: &Run, env: &Env, c: &Case) -> CaseResult {
     };
 
     // ---- compare ---------------------------------------------------------------------------------------
+    // A recognised low-severity difference is remembered and normalised away so that the rest of the
+    // comparison still runs; it is reported at the end if nothing else differs.
+    let mut minor: Option<Fail> = None;
     let (va, vb) = (verdict_norm(&ra), verdict_norm(&rb));
     if va != vb {
-        let d = defgen::first_diff(&va, &vb, "").unwrap_or_default();
-        return Err(Fail::new(
-            "C22:verdict-differs",
-            format!("validation verdict original vs restored differs at {d}: {va} vs {vb}"),
-        ));
+        let list = |v: &Value| -> Vec<String> { v["codes"].as_array().map(|a| a.iter().filter_map(|x| x.as_str().map(String::from)).collect()).unwrap_or_default() };
+        let (mut la, lb) = (list(&va), list(&vb));
+        let mut extra_b = vec![];
+        for c in lb {
+            if let Some(p) = la.iter().position(|x| *x == c) {
+                la.remove(p);
+            } else {
+                extra_b.push(c);
+            }
+        }
+        let is_thumb = |c: &String| c.starts_with("S:assertion.hashedURI.match") && c.contains("c2pa.assertions/c2pa.thumbnail.ingredient");
+        let same_state = va["state"] == vb["state"];
+        if same_state && la.is_empty() && !extra_b.is_empty() && extra_b.iter().all(is_thumb) {
+            minor = Some(Fail::new(
+                "C22:ingredient-thumbnail-copied-after-restore",
+                format!(
+                    "the restored+signed manifest carries {} extra c2pa.thumbnail.ingredient assertion(s): an ingredient that referenced its own manifest's claim thumbnail now references a copy embedded in the active manifest",
+                    extra_b.len()
+                ),
+            ));
+        } else if same_state && extra_b.is_empty() && !la.is_empty() && la.iter().all(is_thumb) {
+            minor = Some(Fail::new(
+                "C22:ingredient-thumbnail-lost-after-restore",
+                format!(
+                    "{} c2pa.thumbnail.ingredient assertion(s) of the directly signed manifest are missing after the archive round trip (thumbnail of an ingredient that has a manifest of its own)",
+                    la.len()
+                ),
+            ));
+        } else {
+            let d = defgen::first_diff(&va, &vb, "").unwrap_or_default();
+            return Err(Fail::new(
+                "C22:verdict-differs",
+                format!("validation verdict original vs restored differs at {d}: only in original {la:?}, only in restored {extra_b:?}"),
+            ));
+        }
     }
     let (mut ja, mut jb) = (report(&ra), report(&rb));
     if env.selftest == 1 {
         // corrupt the restored report: the check must notice
         if let Some(m) = jb["manifests"].as_object_mut().and_then(|m| m.values_mut().next()) {
             m["title"] = json!("corrupted-by-selftest");
+        }
+    }
+    if minor.is_some() {
+        for j in [&mut ja, &mut jb] {
+            drop_thumb_copy_traces(j);
         }
     }
     // validation_results / status live in the same report; they are compared with everything else, and
@@ -384,7 +463,54 @@ fn judge(run: &Run, env: &Env, c: &Case) -> CaseResult {
     if sta != stb {
         return Err(Fail::new("C22:state-differs", format!("validation_state {sta} vs {stb}")));
     }
-    if let Some(d) = defgen::first_diff(&ja, &jb, "") {
+    // Instance numbers of repeated labels are assigned in insertion order; a restored builder re-inserts the
+    // assertions in *reported* order (created before gathered), so `x` / `x__1` can swap between two assertions
+    // with equal label and unchanged data and order.  Like URNs these are SDK-assigned identifiers: counted,
+    // then compared without the instance member.
+    {
+        let inst = |j: &Value| -> Vec<Value> {
+            j["manifests"].as_object().map(|m| m.values().flat_map(|x| x["assertions"].as_array().cloned().unwrap_or_default()).map(|a| a["instance"].clone()).collect()).unwrap_or_default()
+        };
+        if inst(&ja) != inst(&jb) {
+            run.count("note_instance_numbers_reassigned");
+        }
+        for j in [&mut ja, &mut jb] {
+            if let Some(m) = j["manifests"].as_object_mut() {
+                for x in m.values_mut() {
+                    if let Some(a) = x["assertions"].as_array_mut() {
+                        for e in a {
+                            if let Some(o) = e.as_object_mut() {
+                                o.remove("instance");
+                            }
+                        }
+                    }
+                }
+            }
+        }
+    }
+    let mut diff = defgen::first_diff(&ja, &jb, "");
+    if let Some(d) = &diff {
+        // claim v1 flavour of the recognised thumbnail differences (data boxes have no hashedURI status entry,
+        // so the verdicts agree and the difference first shows up in the ingredient's thumbnail reference)
+        if minor.is_none() && d.contains("/ingredients/") && d.contains("/thumbnail") {
+            let lost = d.contains("missing on the right");
+            minor = Some(Fail::new(
+                if lost { "C22:ingredient-thumbnail-lost-after-restore" } else { "C22:ingredient-thumbnail-copied-after-restore" },
+                format!("ingredient thumbnail reference original vs restored: {d}"),
+            ));
+            for j in [&mut ja, &mut jb] {
+                drop_thumb_copy_traces(j);
+            }
+            diff = defgen::first_diff(&ja, &jb, "");
+        }
+    }
+    if let Some(d) = diff {
+        if d.ends_with("/data/alg: \"sha384\" vs \"sha256\"") || d.ends_with("/data/alg: \"sha512\" vs \"sha256\"") {
+            return Err(Fail::new(
+                "C22:hash-alg-lost-after-restore",
+                format!("definition.hash_alg {:?} is not restored from the archive: the restored builder hashes with sha256 ({d})", gd.expect.hash_alg),
+            ));
+        }
         let part = ["title", "assertions", "ingredients", "redactions", "claim_generator_info", "thumbnail", "label", "format", "instance_id"]
             .iter()
             .find(|p| d.contains(&format!("/{p}")))
@@ -402,11 +528,31 @@ fn judge(run: &Run, env: &Env, c: &Case) -> CaseResult {
         ));
     }
 
+    // claim hash algorithm (visible in the detailed report only)
+    let claim_alg = |r: &Reader| -> String {
+        let d: Value = serde_json::from_str(&r.detailed_json()).unwrap_or(Value::Null);
+        d["manifests"][r.active_label().unwrap_or("")]["claim"]["alg"].as_str().unwrap_or("").to_string()
+    };
+    let (alg_a, alg_b) = (claim_alg(&ra), claim_alg(&rb));
+    if alg_a != alg_b {
+        return Err(Fail::new(
+            "C22:hash-alg-lost-after-restore",
+            format!("definition.hash_alg {:?}: claim alg of the directly signed manifest is {alg_a:?}, after the archive round trip {alg_b:?}", gd.expect.hash_alg),
+        ));
+    }
+
     // ---- resources ---------------------------------------------------------------------------------------
     let (Some(ma), Some(mb)) = (ra.active_manifest(), rb.active_manifest()) else {
         return Err(Fail::new("C22:no-active-manifest", "a read-back has no active manifest"));
     };
     let (fa, fb) = (resource_refs(ma), resource_refs(mb));
+    let (fa, fb): (Vec<_>, Vec<_>) = if minor.is_some() {
+        // recognised thumbnail difference: ingredient thumbnails are compared only where both sides have one
+        let keep = |x: &(String, String, String), other: &Vec<(String, String, String)>| !x.0.ends_with(" thumbnail") || !x.0.starts_with("ingredient") || other.iter().any(|y| y.0 == x.0);
+        (fa.iter().filter(|x| keep(x, &fb)).cloned().collect(), fb.iter().filter(|x| keep(x, &fa)).cloned().collect())
+    } else {
+        (fa, fb)
+    };
     if fa.len() != fb.len() {
         return Err(Fail::new(
             "C22:resource-set-differs",
@@ -423,6 +569,16 @@ fn judge(run: &Run, env: &Env, c: &Case) -> CaseResult {
         match (ba, bb) {
             (Ok(p), Ok(q)) => {
                 if p != q {
+                    if std::env::var("VERIF_DUMP").is_ok() {
+                        eprintln!("resource {}: original id {} -> {} bytes {:02x?}; restored id {} -> {} bytes {:02x?}", x.0, x.2, p.len(), &p[..p.len().min(24)], y.2, q.len(), &q[..q.len().min(24)]);
+                        eprintln!("all refs restored: {fb:?}");
+                    }
+                    if gd.expect.claim_version == 1 && y.2.contains("c2pa.databoxes/") && q.len() > 8 && &q[4..8] == b"jumb" {
+                        return Err(Fail::new(
+                            "C22:v1-databox-resource-returns-manifest-store",
+                            format!("{}: after restore the reported identifier {} makes Reader::resource_to_stream return a {}-byte JUMBF manifest store instead of the {}-byte resource", x.0, y.2, q.len(), p.len()),
+                        ));
+                    }
                     return Err(Fail::new(
                         "C22:resource-bytes-differ",
                         format!("{}: {} bytes in the original, {} bytes (different content) after restore", x.0, p.len(), q.len()),
@@ -479,7 +635,33 @@ fn judge(run: &Run, env: &Env, c: &Case) -> CaseResult {
     if gd.has_signed_ingredient() {
         run.count("with_signed_ingredient");
     }
-    Ok(())
+    match minor {
+        Some(f) => Err(f),
+        None => Ok(()),
+    }
+}
+
+/// Remove what the recognised "ingredient thumbnail copied" difference leaves in a report: the success
+/// entries for the extra `c2pa.thumbnail.ingredient` assertions and the ingredient thumbnail identifiers.
+fn drop_thumb_copy_traces(v: &mut Value) {
+    match v {
+        Value::Array(a) => {
+            a.retain(|x| !(x["code"] == "assertion.hashedURI.match" && x["url"].as_str().map(|u| u.contains("c2pa.thumbnail.ingredient")).unwrap_or(false)));
+            a.iter_mut().for_each(drop_thumb_copy_traces);
+        }
+        Value::Object(m) => {
+            let is_ingredient = m.contains_key("relationship");
+            for (k, x) in m.iter_mut() {
+                if !(is_ingredient && k == "thumbnail") {
+                    drop_thumb_copy_traces(x);
+                }
+            }
+            if is_ingredient {
+                m.remove("thumbnail");
+            }
+        }
+        _ => {}
+    }
 }
 
 fn main() {
